@@ -142,6 +142,20 @@ class Image:
                 im._add(so, sn, "pat", arg)
         return im.finish(j["size"])
 
+    def write_to(self, path) -> None:
+        """materialise as a (sparse) real file"""
+        if not self._sorted:
+            self.finish()
+        with open(path, "wb") as f:
+            for so, sn, kind, arg in self.segs:
+                f.seek(so)
+                p = so
+                while p < so + sn:
+                    k = min(1 << 20, so + sn - p)
+                    f.write(self.read_at(p, k))
+                    p += k
+            f.truncate(self.size)
+
     def open(self, name: str | None = None, log: list | None = None) -> "SparseFile":
         return SparseFile(self, name, log)
 
